@@ -36,6 +36,30 @@ def slot_of(e):
     return None
 
 
+def _mentions(e, thr):
+    """does expression e read thr?  Captures inside a closure aggregate count only at the statement that
+    builds the closure (top level), not wherever that closure value is mentioned again (e.g. as an argument
+    of the call whose result a later statement uses)"""
+    def go(x, top):
+        if x == thr:
+            return True
+        if x[0] == 'agg' and x[1].startswith('closure:') and not top:
+            return False
+        k = x[0]
+        if k in ('field', 'deref', 'downcast', 'ref', 'cast', 'discr', 'len', 'cidx', 'subslice', 'repeat'):
+            return go(x[1], False)
+        if k == 'un':
+            return go(x[2], False)
+        if k == 'index':
+            return go(x[1], False) or go(x[2], False)
+        if k == 'bin':
+            return go(x[2], False) or go(x[3], False)
+        if k in ('call', 'agg'):
+            return any(go(a, False) for a in x[2])
+        return False
+    return go(e, True)
+
+
 def threshold_uses(f, thr):
     """all places where the threshold value is read in f: list of (block, description)"""
     uses = []
@@ -48,17 +72,17 @@ def threshold_uses(f, thr):
             e = f.rvalue_expr(rv, bi)
             if rv['r'] in ('use', 'ref', 'cast') and not st['pl']['p'] and not f.local_name(st['pl']['l']):
                 continue   # pure temporaries: their use sites are inspected instead
-            if q.find_sub(e, lambda s: s == thr) is not None:
+            if _mentions(e, thr):
                 uses.append((bi, 'assign', e))
         t = f.blocks[bi]['term']
         if t['t'] == 'call':
             for i, a in enumerate(t['args']):
                 e = f.operand_expr(a, bi)
-                if q.find_sub(e, lambda s: s == thr) is not None:
+                if _mentions(e, thr):
                     uses.append((bi, 'arg%d' % i, f.call_expr(t, bi)))
         elif t['t'] == 'switch':
             e = f.expr(t['d'], bi)
-            if q.find_sub(e, lambda s: s == thr) is not None:
+            if _mentions(e, thr):
                 uses.append((bi, 'switch', e))
     return uses
 
